@@ -314,7 +314,31 @@ impl Prop for C18 {
     type Case = Case;
 
     fn gen(ch: &mut Choices, tier: Tier) -> Option<Case> {
-        let base = <c13::C13 as Prop>::gen(ch, tier)?;
+        let mut base = <c13::C13 as Prop>::gen(ch, tier)?;
+        if ch.chance(1, 15) {
+            // a file without a single instruction: data, labels and directives only (often with a label defined twice)
+            let mut l = vec![Line::Dir(".data".into(), vec![])];
+            let n = 2 + ch.below(4);
+            let dup = if ch.chance(2, 3) { Some(ch.below(n)) } else { None };
+            for k in 0..n {
+                l.push(Line::Label(format!("d{k}")));
+                match ch.below(3) {
+                    0 => l.push(Line::Dir(".word".into(), vec![Opd::I(ch.int_in(0, 9)), Opd::I(ch.int_in(0, 9))])),
+                    1 => l.push(Line::Dir(".asciz".into(), vec![Opd::S("text".into())])),
+                    _ => {}
+                }
+            }
+            if let Some(k) = dup {
+                let at = 1 + ch.below(l.len());
+                l.insert(at, Line::Label(format!("d{k}")));
+            }
+            if ch.chance(1, 3) {
+                l.push(Line::Dir(".text".into(), vec![]));
+                l.push(Line::Label("start".into()));
+            }
+            base.lines = l;
+            base.source = "data-only".into();
+        }
         let mut lines = base.lines;
         if ch.chance(1, 3) {
             gen::inject_defects(&mut lines, ch, 2);
